@@ -54,6 +54,19 @@ CLAIMS['C06'] = dict(
          'JSON, file-system interleavings or collisions of exotic level strings.',
     technique='abstract interpretation over ast (dict-shape / path-template / file-event tracer), writer-reader agreement, call-edge forwarding, exception-handler discipline')
 
+CLAIMS['C07'] = dict(
+    text='Decides structural necessary conditions on all 14 accessors of the OpenADAS provider and all 13 interpolating + 13 null '
+         'rate classes: each accessor catches exactly what its repository getter raises for missing data (raise set computed '
+         'from the getter) and returns the family null rate iff missing_rates_return_null, else re-raises; every rate/null '
+         'constructor call matches the __init__ signature resolved through the Cython class hierarchy; rates are requested with '
+         'the isotope-stripped element on every path while the five photon-coefficient accessors request the wavelength of the '
+         'un-stripped species, wavelength() stripping only as the documented fallback; every density/temperature/energy '
+         "parameter of every evaluate() is guarded '<= 0 -> return 0' before any interpolator or log10; extrapolation type is "
+         "'none' exactly when extrapolate is false and accessors pass permit_extrapolation; unit wiring (PhotonToJ on photon "
+         'tables, sen, st/sref, q/qref, 10**interpolant, axis kinds vs argument kinds). Does not decide that interpolants pass '
+         'through grid points, finiteness under extrapolation or raising outside the range (raysect interpolators).',
+    technique='exception-flow comparison (handler set vs getter raise set), signature binding through the class hierarchy, guard dominance, constant propagation through the IfExp idiom, def-use wiring checks')
+
 # ---- everything not claimed above is pending / not applicable
 _pending = 'check not built yet in this session (see DESIGN.md build order); not claimed until it is'
 for _p in ['C%02d' % i for i in range(1, 21)]:
